@@ -1691,6 +1691,215 @@ func c15r20(c *Ctx, r *Report) {
 	r.floor("reads of the scroll position in printList", n, 1)
 }
 
+// c15r21: printItem skips a row when the memo of what is on it (Terminal.prevLines: number of lines, current,
+// selected, label, query length, result) is unchanged. --wrap and --multi-line change how a row is drawn without
+// changing any of these when the item is clipped to the rows that are left, so the actions that toggle them
+// invalidate the memo (D84: toggle-wrap / toggle-multi-line did not: the last visible row kept the truncated
+// form `Lxxxx··` where a fresh --wrap shows the wrapped text).
+func c15r21(c *Ctx, r *Report) {
+	l := c.L
+	r.rule("C15-R21", "A (a change of the wrapping mode invalidates the row memo)", "P1",
+		"in Terminal.Loop and its closures, every path from a store into Terminal.wrap or Terminal.multiLine to a return passes a call of Terminal.forceRerenderList",
+		"after toggle-wrap / toggle-multi-line a row keeps its old rendering: the screen does not show the line the way the current mode draws it")
+	loop := l.Fn("fzf", "(*Terminal).Loop")
+	force := l.Fn("fzf", "(*Terminal).forceRerenderList")
+	fW := l.Field("fzf", "Terminal", "wrap")
+	fM := l.Field("fzf", "Terminal", "multiLine")
+	if loop == nil || force == nil || fW == nil || fM == nil {
+		r.unest("anchors", token.NoPos, nil, "anchors Terminal.Loop / forceRerenderList / wrap / multiLine", "cannot resolve")
+		return
+	}
+	isForce := func(in ssa.Instruction) bool { return staticCallee(in) == force }
+	n := 0
+	for _, fn := range withClosures(loop) {
+		eachInstr(fn, func(in ssa.Instruction) {
+			st, ok := in.(*ssa.Store)
+			if !ok {
+				return
+			}
+			fld, _ := fieldOf(st.Addr)
+			if fld != fW && fld != fM {
+				return
+			}
+			n++
+			hit := pathAvoiding(st, isReturn, isForce, nil)
+			r.check(hit == nil, fmt.Sprintf("%s:change of Terminal.%s invalidates the row memo", relName(rootFn(fn)), fld.Name()), st.Pos(), fn,
+				"forceRerenderList follows", "Terminal."+fld.Name()+" is changed and the handler returns without invalidating prevLines")
+		})
+	}
+	r.floor("stores into Terminal.wrap / Terminal.multiLine in Terminal.Loop", n, 2)
+}
+
+// c15r22: in the reverse-list layout the physical row of list line i depends on the number of header lines
+// (see C15-R17). change-header / transform-header change that number as well, so when Terminal.changeHeader
+// reports a different number of lines the row memo is invalidated (D85: it was not: with --header-first the
+// separator of the old info line stayed behind `item09`).
+func c15r22(c *Ctx, r *Report) {
+	l := c.L
+	r.rule("C15-R22", "A (a header of another height invalidates the row memo)", "P1",
+		"in Terminal.Loop and its closures, every path from the true branch of a call of Terminal.changeHeader (the number of header lines changed) to a return passes a call of Terminal.forceRerenderList",
+		"with --layout reverse-list, change-header to fewer or more lines leaves fragments of what was on the rows before")
+	loop := l.Fn("fzf", "(*Terminal).Loop")
+	force := l.Fn("fzf", "(*Terminal).forceRerenderList")
+	ch := l.Fn("fzf", "(*Terminal).changeHeader")
+	if loop == nil || force == nil || ch == nil {
+		r.unest("anchors", token.NoPos, nil, "anchors Terminal.Loop / forceRerenderList / changeHeader", "cannot resolve")
+		return
+	}
+	isForce := func(in ssa.Instruction) bool { return staticCallee(in) == force }
+	n := 0
+	for _, fn := range withClosures(loop) {
+		eachInstr(fn, func(in ssa.Instruction) {
+			call, ok := in.(*ssa.Call)
+			if !ok || call.Common().StaticCallee() != ch {
+				return
+			}
+			n++
+			edgeOK := func(from, to *ssa.BasicBlock) bool {
+				iff, ok := from.Instrs[len(from.Instrs)-1].(*ssa.If)
+				if !ok || iff.Cond != ssa.Value(call) {
+					return true
+				}
+				return to == from.Succs[0]
+			}
+			hit := pathAvoiding(call, isReturn, isForce, edgeOK)
+			r.check(hit == nil, fmt.Sprintf("%s:changeHeader call #%d", relName(rootFn(fn)), n), call.Pos(), fn,
+				"forceRerenderList follows when the number of lines changed", "the number of header lines changes and the handler returns without invalidating prevLines")
+		})
+	}
+	r.floor("calls of Terminal.changeHeader in Terminal.Loop", n, 1)
+}
+
+// c15r23: every width computation counts U+FFFD (a valid character, and what invalid bytes of a line are
+// turned into) as one column. The light renderer filters what it sends to the terminal rune by rune; utf8.RuneError
+// IS U+FFFD, so a filter `r != utf8.RuneError` with no look at the decoded size also drops the valid character
+// (D86: it did: the row was cleared too few cells and kept characters of the item shown there before).
+func c15r23(c *Ctx, r *Report) {
+	l := c.L
+	r.rule("C15-R23", "D (what is counted is drawn)", "P1",
+		"in LightRenderer.stderrInternal, the block that appends the decoded rune to the output is reachable with the rune equal to utf8.RuneError (the test against RuneError is combined with the size returned by utf8.DecodeRune)",
+		"a line containing U+FFFD is drawn narrower than it is accounted for: cells of the previous content of the row are not cleared")
+	fn := l.Fn("tui", "(*LightRenderer).stderrInternal")
+	if fn == nil {
+		r.unest("anchors", token.NoPos, nil, "anchor LightRenderer.stderrInternal", "cannot resolve")
+		return
+	}
+	pc := pathConds(fn)
+	n := 0
+	eachInstr(fn, func(in ssa.Instruction) {
+		st, ok := in.(*ssa.Store)
+		if !ok {
+			return
+		}
+		ex, ok := st.Val.(*ssa.Extract)
+		if !ok || ex.Index != 0 {
+			return
+		}
+		call, ok := ex.Tuple.(*ssa.Call)
+		if !ok || calleeName(call.Common()) != "unicode/utf8.DecodeRune" {
+			return
+		}
+		n++
+		always, reach := pc.Implies(st.Block(), func(lits []Lit) bool {
+			for _, lt := range lits {
+				bo, ok := lt.Atom.(*ssa.BinOp)
+				if !ok || bo.X != ssa.Value(ex) || !isConstInt(bo.Y, 0xFFFD) {
+					continue
+				}
+				if (bo.Op == token.NEQ && lt.Val) || (bo.Op == token.EQL && !lt.Val) {
+					return true
+				}
+			}
+			return false
+		})
+		r.check(!always && reach, fmt.Sprintf("%s:the decoded rune is emitted (#%d)", relName(fn), n), st.Pos(), fn,
+			"reachable with a validly encoded U+FFFD", "every path to the output of the decoded rune requires r != utf8.RuneError: a valid U+FFFD is dropped although it is counted as one column")
+	})
+	r.floor("places where stderrInternal emits the decoded rune", n, 1)
+}
+
+// c12r15: the command line written into the popup script is read by sh. The two fifo paths in it come from
+// os.TempDir() — $TMPDIR — and have to be quoted for sh like everything else: with escapeSingleQuote. Go's %q
+// produces a double-quoted Go literal, inside which sh still expands $(...) , `...` and $VAR (D87: it was %q:
+// TMPDIR=/tmp/t$(touch PWNED) executed the command substitution and the re-launch failed).
+func c12r15(c *Ctx, r *Report) {
+	l := c.L
+	r.rule("C12-R15", "B (everything pasted into the popup command is sh-quoted)", "P1",
+		"in runProxy, every fmt.Sprintf that builds the redirected command (its constant format contains ` > `) has no %q verb, and each of its arguments is either the command prefix handed in by the caller or a direct result of escapeSingleQuote",
+		"a $TMPDIR containing $(...) , a back-quote, a double quote or a non-printable character is executed as shell syntax by the popup script, or the fifo cannot be opened and fzf --tmux does not start")
+	fn := l.Fn("fzf", "runProxy")
+	esc := l.Fn("fzf", "escapeSingleQuote")
+	if fn == nil || esc == nil || len(fn.Params) == 0 {
+		r.unest("anchors", token.NoPos, nil, "anchors runProxy / escapeSingleQuote", "cannot resolve")
+		return
+	}
+	var prefix ssa.Value
+	for _, p := range fn.Params {
+		if p.Name() == "commandPrefix" {
+			prefix = p
+		}
+	}
+	n := 0
+	eachInstr(fn, func(in ssa.Instruction) {
+		call, ok := in.(*ssa.Call)
+		if !ok || calleeName(call.Common()) != "fmt.Sprintf" || len(call.Call.Args) != 2 {
+			return
+		}
+		format, ok := constString(call.Call.Args[0])
+		if !ok || !strings.Contains(format, " > ") {
+			return
+		}
+		n++
+		key := fmt.Sprintf("%s:redirected command #%d", relName(fn), n)
+		if strings.Contains(format, "%q") {
+			r.bad(key+" has no %q", call.Pos(), fn, "sh quoting, not Go quoting", "the format "+format+" quotes a path with %q: sh expands $(...), `...` and $VAR inside double quotes")
+		} else {
+			r.ok(key+" has no %q", call.Pos(), fn, "no Go-quoted argument in "+format)
+		}
+		// the variadic arguments
+		sl, ok := call.Call.Args[1].(*ssa.Slice)
+		if !ok {
+			r.unest(key+" arguments", call.Pos(), fn, "the argument list", "not a literal variadic call")
+			return
+		}
+		arr := sl.X
+		k := 0
+		eachInstr(fn, func(in2 ssa.Instruction) {
+			st, ok := in2.(*ssa.Store)
+			if !ok {
+				return
+			}
+			ia, ok := st.Addr.(*ssa.IndexAddr)
+			if !ok || ia.X != arr {
+				return
+			}
+			k++
+			v := stripConv(st.Val)
+			good := false
+			if c2, ok := v.(*ssa.Call); ok && c2.Common().StaticCallee() == esc {
+				good = true
+			} else if prefix != nil {
+				fromPrefix, other := false, false
+				for w := range backwardSlice(v, nil, nil) {
+					switch x := w.(type) {
+					case *ssa.Parameter:
+						if ssa.Value(x) == prefix {
+							fromPrefix = true
+						} else {
+							other = true
+						}
+					case *ssa.Call:
+						other = true
+					}
+				}
+				good = fromPrefix && !other
+			}
+			r.check(good, fmt.Sprintf("%s argument %d", key, k), st.Pos(), fn, "the caller's prefix or escapeSingleQuote(...)", "argument "+describe(v)+" is pasted into the sh command line without escapeSingleQuote")
+		})
+	})
+	r.floor("redirected commands built in runProxy", n, 3)
+}
+
 func round10(c *Ctx, r *Report, prop string) {
 	switch prop {
 	case "C01":
@@ -1725,6 +1934,9 @@ func round10(c *Ctx, r *Report, prop string) {
 		c15r18(c, r)
 		c15r19(c, r)
 		c15r20(c, r)
+		c15r21(c, r)
+		c15r22(c, r)
+		c15r23(c, r)
 	case "C17":
 		c17r28(c, r)
 		c17r29(c, r)
@@ -1733,6 +1945,8 @@ func round10(c *Ctx, r *Report, prop string) {
 	case "C20":
 		c20r16(c, r)
 		c20r17(c, r)
+	case "C12":
+		c12r15(c, r)
 	case "C13":
 		c06r8(c, r) // the count of items is the same whichever goroutine computes it
 	}
